@@ -340,6 +340,45 @@ let () = register "cli" (fun args ->
     Printf.sprintf "exit=%d %s" (int_of_z (exit_code r)) (match r with Exit0_info -> "info" | Exit1 -> "failure" | Exit0_written -> "written")
   | _ -> "BADARGS")
 
+(* pipeline <bt> <type> <gpo bits> <gpe bits> <tgpe bits> <tasks a:b:c,..|AUTO> <seq hex>...
+   the numeric pipeline on the sequences in INPUT order: canonical sort, codes, guide tree (model's own UPGMA when
+   AUTO, else the given task list), progressive alignment; prints TREE and one NODE per merge *)
+let () = register "pipeline" (fun args ->
+  match args with
+  | bt :: ty :: g :: e :: t :: tasks :: seqs ->
+    let bt = z_of_int (int_of_string bt) in
+    let seqs = List.map (fun h -> if h = "-" then [] else bytes_of_hexstr h) seqs in
+    let recs = List.mapi (fun i s -> (List.map (fun c -> z_of_int (Char.code c)) (List.init (String.length (Printf.sprintf "Seq_%d" (i+1))) (String.get (Printf.sprintf "Seq_%d" (i+1)))), s)) seqs in
+    (match essential_check (with_ranks Z0 recs) with
+     | None -> "FAIL essential"
+     | Some kept ->
+       let sorted = sort_len_name kept in
+       (match alphabets bt with
+        | None -> "FAIL alphabet"
+        | Some ((ta, tamb), (aa, aamb)) ->
+          (match init bt (z_of_int (int_of_string ty)) (n_of_int (int_of_string g)) (n_of_int (int_of_string e)) (n_of_int (int_of_string t)) with
+           | None -> "FAIL params"
+           | Some p ->
+             let tcodes = List.map (fun r -> convert ta tamb r.r_res) sorted in
+             let acodes = List.map (fun r -> convert aa aamb r.r_res) sorted in
+             let tl = if tasks = "AUTO" then guide_tasks tcodes
+               else Some (List.map (fun x -> match String.split_on_char ':' x with
+                   | [a; b; c] -> ((nat_of_int (int_of_string a), nat_of_int (int_of_string b)), nat_of_int (int_of_string c))
+                   | _ -> failwith "task") (String.split_on_char ',' tasks)) in
+             (match tl with
+              | None -> "FAIL tree"
+              | Some tl ->
+                let tree_s = String.concat "," (List.map (fun ((a, b), c) -> Printf.sprintf "%d:%d:%d" (int_of_nat a) (int_of_nat b) (int_of_nat c)) tl) in
+                (match progressive alg_f32 (np_of_params p) acodes (sort_tasks tl) with
+                 | None -> "FAIL progressive |TREE " ^ tree_s
+                 | Some nodes ->
+                   "OK |TREE " ^ tree_s ^
+                   String.concat "" (List.map (fun ((((a, b), c), raw), ops) ->
+                       Printf.sprintf "|NODE %d %d %d raw=%s ops=%s" (int_of_nat a) (int_of_nat b) (int_of_nat c)
+                         (String.concat "," (List.map (fun z -> string_of_int (int_of_z z)) raw))
+                         (String.concat "," (List.map (fun z -> string_of_int (int_of_z z)) ops))) nodes))))))
+  | _ -> "BADARGS")
+
 let main () =
   try
     while true do
